@@ -36,7 +36,7 @@ def references():
 LIN = {"lin1": 1, "lin2": 2, "lin3": 3}     # formula kernels (harness/cxx2lin.py): the specialised branches of linear.hpp
 
 
-RIMP = ("matmul", "identity", "affine_apply", "translation", "scaling")     # harness/cxx2rimp.py
+RIMP = ("matmul", "identity", "affine_apply", "affine_compose", "translation", "scaling")     # harness/cxx2rimp.py
 
 
 OWN = ("copy_assign", "copy_ctor", "members")     # harness/cxx2own.py
